@@ -127,6 +127,14 @@ pub fn eval(cat: &Catalog, case: &Case) -> Evaluated {
             let _ = f.flush();
         }
     }
+    match case.clause.as_str() {
+        "sinks" => return crate::seams::eval_sinks(cat, case),
+        "sources" | "eof-reject" => return crate::seams::eval_sources(case),
+        "zip-roundtrip" => return crate::zip::eval_roundtrip(case),
+        "zip-truncation" | "zip-damaged" => return crate::zip::eval_damaged(case),
+        "batch" | "script" => return eval_script(cat, case),
+        _ => {}
+    }
     let e = cat.by_name(&case.read_as).unwrap_or_else(|| panic!("unknown catalogue entry {}", case.read_as));
     match case.clause.as_str() {
         "total" => {
@@ -217,7 +225,6 @@ pub fn eval(cat: &Catalog, case: &Case) -> Evaluated {
             };
             Evaluated { finding, outcome: out.class(), meter }
         }
-        "batch" | "script" => eval_script(cat, case),
         "ctor-index" => {
             // bytes written by the real encoder: version byte 0, then the unsigned varint of the
             // constructor's rank in the writer's index order
